@@ -56,6 +56,9 @@ func mod(a, n int) int {
 func (r *run) local(a *actor, d *dtState, x api, e Ev) {
 	var err error
 	name := e.Op
+	dr := r.dress(e)
+	orig := e.V
+	e.V = dr.vals
 	msg, fp := safely(func() {
 		switch {
 		case x.cnt != nil:
@@ -115,6 +118,21 @@ func (r *run) local(a *actor, d *dtState, x api, e Ev) {
 	if msg != "" {
 		r.fail("nocrash", r.prop+".client-crash", fp, "%s: %s on %s panicked: %s", a.name, name, d.key, msg)
 		panic(abortRun{})
+	}
+	e.V = orig
+	if len(dr.pokes) > 0 && msg == "" && !r.inTx {
+		// the application changes its variables afterwards: the replica must not notice
+		before := r.viewOf(d)
+		for _, poke := range dr.pokes {
+			poke()
+		}
+		r.probe("pointer-values-poked")
+		if after := r.viewOf(d); after != before {
+			r.fail("wire", "C14.value-captured", d.kind, "%s: after %s on %s the application changed a variable it had passed by pointer and the replica changed with it:\n  before: %s\n  after : %s", a.name, e.Op, d.key, clip(before, 300), clip(after, 300))
+		}
+	}
+	if r.on("wire") && msg == "" && !r.inTx {
+		r.checkNativeReads(a, d, x)
 	}
 	d.nLocal++
 	d.nLocalSinceOpen++
@@ -274,4 +292,31 @@ func flattenOpIDs(ops []interface{}) []string {
 	}
 	walk(x)
 	return out
+}
+
+// checkNativeReads: typed reads return JSON-native Go values (float64, string, bool, map, slice), whatever
+// Go type the application passed in.
+func (r *run) checkNativeReads(a *actor, d *dtState, x api) {
+	msg, _ := safely(func() {
+		switch {
+		case x.mp != nil:
+			if m, ok := d.dt.ToJSON().(map[string]interface{}); ok {
+				if inner, ok := m["Map"].(map[string]interface{}); ok {
+					for _, k := range kernel.SortedKeys(inner) {
+						if v := x.mp.Get(k); !jsonNative(v) {
+							r.fail("wire", "C14.local-value-native", "map", "%s: Get(%q) on %s returns a %T, not a JSON value", a.name, k, d.key, v)
+						}
+					}
+				}
+			}
+		case x.li != nil:
+			for i := 0; i < x.li.Size() && i < 40; i++ {
+				v, err := x.li.Get(i)
+				if err == nil && !jsonNative(v) {
+					r.fail("wire", "C14.local-value-native", "list", "%s: Get(%d) on %s returns a %T, not a JSON value", a.name, i, d.key, v)
+				}
+			}
+		}
+	})
+	_ = msg
 }
